@@ -25,3 +25,150 @@ def element_style(desc, t, key=None, **_):
   elif not hit:
     lines.append(f"the recorded failure {key!r} is not reproduced (other failures are listed above)")
   return bool(hit), "\n".join(lines)
+
+
+# ---------------------------------------------------------------------------------------------------------------------
+# replays of proof-tier counter-models
+
+
+def _f(model, name, default=1):
+  v = model.get(name)
+  return Fraction(str(v).replace(" ", "")) if v is not None else Fraction(default)
+
+
+def compute_length(unit, model, ref_units=None, missing=False, only=False, none=False, obligation="", **_):
+  import ttconv.isd as I
+  import ttconv.style_properties as SP
+  U = SP.LengthType.Units
+  need = {"%": 0, "em": 1, "c": 2, "px": 3}
+  src = SP.LengthType(_f(model, "v"), U(unit))
+  if none:
+    refs = [None] * 4
+  elif only:
+    refs = [None] * 4
+    refs[need[unit]] = SP.LengthType(_f(model, "r"), U.rh)
+  else:
+    refs = [SP.LengthType(_f(model, n), U(u)) for n, u in zip(("pr", "er", "cr", "xr"), ref_units or ("rw", "rh", "rw", "rh"))]
+    if missing:
+      refs[need[unit]] = None
+  try:
+    out = I._compute_length(src, *refs)
+  except ValueError as e:
+    ok = missing
+    return (not ok), f"_compute_length({src}, {refs}) raised ValueError({e}); {'required' if ok else 'not allowed'}"
+  if missing:
+    return True, f"_compute_length({src}, {refs}) returned {out} although the needed reference is None"
+  if unit in need:
+    ref = refs[need[unit]]
+    want = (src.value * ref.value / 100 if unit == "%" else src.value * ref.value, ref.units)
+  else:
+    want = (src.value, src.units)
+  bad = out.value != want[0] or out.units is not want[1]
+  return bad, f"_compute_length({src}, {refs}) = {out}; unit table: {want[0]} {want[1].value}"
+
+
+_VARS = {
+  "FontSize": lambda m, u: ["L", str(_f(m, "v")), u[0]],
+  "LineHeight": lambda m, u: ["L", str(_f(m, "v")), u[0]],
+  "LinePadding": lambda m, u: ["L", str(_f(m, "v")), u[0]],
+  "TextOutline": lambda m, u: ["TO", ["L", str(_f(m, "v")), u[0]], None],
+  "RubyReserve": lambda m, u: ["RR", "both", ["L", str(_f(m, "v")), u[0]]],
+  "TextShadow": lambda m, u: ["TS", [["S", ["L", str(_f(m, "x")), u[0]], ["L", str(_f(m, "y")), u[0]], ["L", str(_f(m, "b")), u[0]], None],
+                                     ["S", ["L", str(_f(m, "y")), u[0]], ["L", str(_f(m, "x")), u[0]], None, ["C", [0, 0, 255, 255]]]]],
+  "Extent": lambda m, u: ["X", ["L", str(_f(m, "h")), u[0]], ["L", str(_f(m, "w")), u[1]]],
+  "Origin": lambda m, u: ["O", ["L", str(_f(m, "x")), u[0]], ["L", str(_f(m, "y")), u[1]]],
+  "Padding": lambda m, u: ["D"] + [["L", str(_f(m, n)), u[0]] for n in ("pb", "pe", "pa", "ps")],
+}
+
+
+def _run_desc(desc):
+  import logging
+  logging.disable(logging.CRITICAL)
+  import rtc.c03 as R
+  from rtc.common import Recorder
+  got = []
+  R.check_snapshot(Recorder("C03", "", {}), R.build(desc), Fraction(0), desc,
+                   {"kind": "replay", "mode": "replay", "wm": "*", "cell": desc["cell"], "px": desc["px"]}, got)
+  lines = [f"document: {R.json.dumps(desc)}"]
+  for k, rid, eid, name, obs, exp in got:
+    lines.append(f"[{k}] element {eid!r} {name}: ttconv computed {R.S.show(obs) if obs is not None else obs}; "
+                 f"TTML style resolution gives {R.S.show(exp) if exp is not None else exp}")
+  if not got:
+    lines.append("all contracts hold on this document")
+  return bool(got), "\n".join(lines)
+
+
+def processor(processor, unit, cell, px, model, wm=None, obligation="", **_):
+  """the counter-model of a processor obligation, replayed through a whole document and ISD.from_model"""
+  import rtc.c03 as R
+  desc, roles = R.template(1, 1, {"s1"})
+  desc["cell"], desc["px"] = list(cell), list(px)
+  units = unit.split(" ")
+  value = _VARS[processor](model, units)
+  on_region = processor in ("Extent", "Origin", "Padding")
+  target = roles["Region"] if on_region else (roles["P"] if processor in ("LineHeight", "LinePadding", "RubyReserve", "FontSize") else roles["Span"])
+  if "fs" in model:
+    R.add_style(target, "FontSize", ["L", str(_f(model, "fs")), "rh"])
+  if "pfs" in model:
+    R.add_style(roles["Div"], "FontSize", ["L", str(_f(model, "pfs")), "rh"])
+  if "eh" in model or "ew" in model:
+    R.add_style(roles["Region"], "Extent", ["X", ["L", str(_f(model, "eh", 100)), "rh"], ["L", str(_f(model, "ew", 100)), "rw"]])
+  if wm:
+    R.add_style(roles["Region"], "WritingMode", ["E", "WritingModeType", wm])
+  R.add_style(target, processor, value)
+  return _run_desc(desc)
+
+
+def position(hu, vu, hedge, vedge, cell, px, model, obligation="", **_):
+  """the solver's model may sit inside the float error terms (extents of 1e-300): if it does not fail natively, try round values"""
+  import rtc.c03 as R
+  out = None
+  for m in (model, {"eh": 20, "ew": 50, "ho": 10, "vo": 10}, {"eh": "25/2", "ew": "100/3", "ho": 3, "vo": 2}):
+    desc, roles = R.template(1, 1, {"s1"})
+    desc["cell"], desc["px"] = list(cell), list(px)
+    reg = roles["Region"]
+    R.add_style(reg, "Extent", ["X", ["L", str(_f(m, "eh", 50)), "rh"], ["L", str(_f(m, "ew", 50)), "rw"]])
+    R.add_style(reg, "Position", ["P", ["L", str(_f(m, "ho", 10)), hu], ["L", str(_f(m, "vo", 10)), vu], hedge, vedge])
+    out = _run_desc(desc)
+    if out[0]:
+      return out
+  return out
+
+
+def ruby_font_size(model, obligation="", **_):
+  """font sizes of every ruby part of the template document, with the font size of the model on the paragraph"""
+  import rtc.c03 as R
+  desc, roles = R.template(1, 1, None)
+  R.add_style(roles["P"], "FontSize", ["L", str(_f(model, "pfs", 8)), "rh"])
+  return _run_desc(desc)
+
+
+def ruby_reserve_default(model, obligation="", **_):
+  import rtc.c03 as R
+  desc, roles = R.template(1, 1, {"s1"})
+  R.add_style(roles["P"], "FontSize", ["L", str(_f(model, "fs", 8)), "rh"])
+  R.add_style(roles["P"], "RubyReserve", ["RR", "before", None])
+  return _run_desc(desc)
+
+
+def _b(model, name):
+  v = model.get(name)
+  return None if v is None else str(v).lower() == "true"
+
+
+def text_decoration(mask, model, obligation="", **_):
+  import rtc.c03 as R
+  desc, roles = R.template(1, 1, {"s1"})
+  parent = [bool(_b(model, n)) for n in ("pu", "pl", "po")]
+  spec = [bool(_b(model, n)) if mask & (1 << i) else None for i, n in enumerate(("su", "sl", "so"))]
+  R.add_style(roles["P"], "TextDecoration", ["TD"] + parent)
+  R.add_style(roles["Span"], "TextDecoration", ["TD"] + spec)
+  return _run_desc(desc)
+
+
+def origin_only(cell, px, model, obligation="", **_):
+  import rtc.c03 as R
+  desc, roles = R.template(1, 1, {"s1"})
+  desc["cell"], desc["px"] = list(cell), list(px)
+  R.add_style(roles["Region"], "Origin", ["O", ["L", str(_f(model, "ox", 10)), "rw"], ["L", str(_f(model, "oy", 20)), "rh"]])
+  return _run_desc(desc)
